@@ -19,8 +19,10 @@ from . import common as C
 STACK = "ulimit -s 4000000 2>/dev/null || ulimit -s unlimited 2>/dev/null; "
 
 
-def run_vh_trace(out, profile=None, cases=0, length=0, backend="mem", seed=1, script=None, timeout=3000):
+def run_vh_trace(out, profile=None, cases=0, length=0, backend="mem", seed=1, script=None, timeout=3000, feed=None):
     args = [C.VH, "trace", "--out", out, "--seed", str(seed)]
+    if feed:
+        args += ["--feed", feed]
     if script:
         args += ["--script", script]
     else:
